@@ -70,7 +70,10 @@ def to_tree(obj):
     """Formula object -> tagged list, by class name and subformulas() (never via str/==)."""
     name = obj.__class__.__name__
     if name == 'Bool':
-        return ['true'] if bool(obj._value) else ['false']
+        v = getattr(obj, '_value', None)
+        if v is None:                  # the private attribute was renamed: fall back to the public behaviour Bool(b) == b
+            v = bool(obj == True)      # noqa: E712
+        return ['true'] if bool(v) else ['false']
     if name == 'AtomicProposition':
         return ['ap', obj.name]
     tag = CLASS2TAG.get(name)
@@ -89,6 +92,7 @@ def lang_of(obj):
 
 
 SYM = {'not': 'not', 'or': 'or', 'and': 'and', 'imp': '-->'}
+RESERVED = ('true', 'false', 'not', 'or', 'and', 'A', 'E', 'X', 'F', 'G', 'U', 'R')
 
 
 def to_text(tree, logic='CTLS'):
@@ -96,7 +100,10 @@ def to_text(tree, logic='CTLS'):
     the documented concrete syntax of each logic."""
     t = tree[0]
     if t == 'ap':
-        return tree[1]
+        import re
+        if re.match(r'^[a-zA-Z_][a-zA-Z_0-9]*$', tree[1]) and tree[1] not in RESERVED:
+            return tree[1]
+        return '"%s"' % tree[1]          # the grammars' second form of an atomic proposition (no escapes are generated)
     if t in ('true', 'false'):
         return t
     if logic == 'CTL':
@@ -169,6 +176,33 @@ def as_container(xs, rng, pairs=False):
     return tuple(list(x) for x in xs) if pairs else tuple(xs)
 
 
+class SpecKripke(Kripke):
+    """a user subclass whose constructor takes ONE description dict (a different signature from Kripke's own)"""
+
+    def __init__(self, spec):
+        super(SpecKripke, self).__init__(S=spec.get('S'), S0=spec.get('S0'), R=spec.get('R'), L=spec.get('L'))
+        self.spec_name = spec.get('name', 'unnamed')
+
+
+def new_kripke(S, S0, R, L, sub=False):
+    if sub:
+        return SpecKripke({'S': S, 'S0': S0, 'R': R, 'L': L})
+    return Kripke(S=S, S0=S0, R=R, L=L)
+
+
+def present_F(F, name, rng):
+    """fairness constraints as the caller may give them: each constraint a set, a frozenset or a dict keys view (what
+    Kripke.states() itself returns), the constraints in a list or a tuple"""
+    if F is None:
+        return None
+    out = []
+    for P in F:
+        xs = [name(i) for i in P]
+        k = rng.randrange(3) if rng is not None else 0
+        out.append(set(xs) if k == 0 else frozenset(xs) if k == 1 else dict.fromkeys(xs).keys())
+    return tuple(out) if rng is not None and rng.random() < 0.3 else out
+
+
 def mk_kripke(K, naming='int', order=None, rng=None, S0=None, relabel=False):
     """Present abstract K = {n,R,L} to the real constructor.  Returns (kripke, name_of, index_of)."""
     name = NAMINGS[naming] if isinstance(naming, str) else naming
@@ -176,20 +210,22 @@ def mk_kripke(K, naming='int', order=None, rng=None, S0=None, relabel=False):
     S = [name(i) for i in range(n)]
     R = [(name(a), name(b)) for a, b in K['R']]
     L = [(name(i), set(K['L'][i])) for i in range(n)]
+    sub = False
     if rng is not None:
         rng.shuffle(S)
         rng.shuffle(R)
         rng.shuffle(L)
+        sub = rng.random() < 0.15          # an instance of a user subclass of Kripke
     if relabel:
         # two-step construction: bare structure first, then replace_labelling_function with a dict that is also
         # defined on objects that are NOT states (e.g. one labelling shared by several structures)
-        k = Kripke(S=S, S0=[name(i) for i in (S0 or [])], R=R)
+        k = new_kripke(S, [name(i) for i in (S0 or [])], R, None, sub=sub)
         Ld = dict(L)
         for j in range(n, n + 2):
             Ld[name(j)] = set(['p', 'q'])
         k.replace_labelling_function(Ld)
     else:
-        k = Kripke(S=as_container(S, rng), S0=as_container([name(i) for i in (S0 or [])], rng), R=as_container(R, rng, pairs=True), L=dict(L))
+        k = new_kripke(as_container(S, rng), as_container([name(i) for i in (S0 or [])], rng), as_container(R, rng, pairs=True), dict(L), sub=sub)
     return k, name, {name(i): i for i in range(n)}
 
 
@@ -213,12 +249,26 @@ def quiet():
         yield buf
 
 
+_CALLS = [0]
+
+
 def call_mc(logic, k, formula, F=None):
     """Call <logic>.modelcheck; returns ('ret', value) or ('exc', class name, message)."""
     mod = LANGS[logic]
+    _CALLS[0] += 1
+    form = _CALLS[0] % 6
     try:
         with quiet():
-            if F is None:
+            # the same documented call in its legal forms: positional / keyword arguments, an explicit parser for text
+            if form == 1:
+                r = mod.modelcheck(kripke=k, formula=formula, F=F)
+            elif form == 2 and isinstance(formula, str):
+                r = mod.modelcheck(k, formula, mod.Parser(), F)
+            elif form == 3:
+                r = mod.modelcheck(k, formula, None, F)
+            elif form == 4 and isinstance(formula, str):
+                r = mod.modelcheck(k, formula, parser=mod.Parser(), F=F)
+            elif F is None:
                 r = mod.modelcheck(k, formula)
             else:
                 r = mod.modelcheck(k, formula, F=F)
